@@ -151,6 +151,19 @@ for dt, vals in INTS.items():
                     {"dtype": dt.__name__, "array": list(map(int, combo))}, lambda arr=arr: check(arr))
 
 
+# long columns (as in real files: > 65535 entries) of irregular small values with a sentinel at the edge of the dtype:
+# the encodings that only pay off for long arrays (integer packing into 1 or 2 bytes) are reached only here
+_long_rng = np.random.default_rng(R.args.seed + 505)
+for dt, sentinels in ((np.uint32, (2 ** 32 - 1, 2 ** 31, 2 ** 31 - 1, 70000)), (np.int32, (-2 ** 31, 2 ** 31 - 1, -70000)), (np.uint16, (65535,)),
+                      (np.int16, (-32768, 32767)), (np.uint8, (255,)), (np.int8, (-128,))):
+    for sentinel in sentinels:
+        for n in (70000, 140000) if dt in (np.uint32, np.int32) else (70000,):
+            hi = min(30000, int(np.iinfo(dt).max))
+            arr = _long_rng.integers(0, hi, size=n).astype(dt)
+            arr[n // 3] = sentinel
+            R.check("compress() round trip exact for integers", "long columns with sentinels",
+                    {"dtype": dt.__name__, "length": n, "values": f"random in [0, {hi})", "sentinel": sentinel, "at": n // 3}, lambda arr=arr: check(arr))
+
 # the tolerance passed to compress() holds at every container level (data, column, category, block, file)
 from biotite.structure.io.pdbx.bcif import BinaryCIFBlock, BinaryCIFCategory, BinaryCIFColumn, BinaryCIFFile
 
